@@ -17,7 +17,8 @@ def err_event(code, shape, k=0):
     if shape != "nocode":
         ev["code"] = code
     if shape != "nomsg":
-        ev["msg"] = f"server says {k}"
+        ev["msg"] = [f"server says {k}", "100% of quota used", "bad uri file:///my%20docs/x %s %d %(a)s", "{braces} {0} }{",
+                     "line1\nline2", "", "\u2028é😀"][k % 7] if shape != "plain" or k % 2 else f"server says {k}"
     if shape.startswith("data"):
         ev["data"] = {"data-obj": {"a": [1, None]}, "data-str": "s", "data-num": 5, "data-list": [1, 2], "data-false": False}[shape]
     return ev
@@ -50,7 +51,7 @@ class ErrorPath(Suite):
                                         "progress": "G" in pre, "ev": ev}))
         for h in helpers[1:]:
             for code in CODES[::2] if budget == "quick" else CODES:
-                for shape in ("plain", "data-obj"):
+                for shape in ("plain", "data-obj", "data-str"):
                     k += 1
                     ev = [[7, G.sym_event("N", k=k)], [300, err_event(code, shape, k)], [310, {"k": "resp", "id": "$ID", "p": {}}]]
                     out.append(G.place({"id": None, "helper": h, "D": 1024, "tie": ["events", "timers"][k % 2], "ev": ev}))
